@@ -1143,4 +1143,323 @@ theorem recRoot_returns (c : HCfg) (h : Heap) (id : Nat) (nd : Node) (hnr : NoRa
   simp only [recRoot, hnd, h2]
   exact ⟨_, _, rfl⟩
 
+/-! ## heap level: the output only refers to rebuilt objects -/
+
+def objClosed (n : Nat) : Obj → Prop
+  | .atom _ => True
+  | .ref i => i < n
+
+def itemsClosed (n : Nat) (l : List (Key × Obj)) : Prop := ∀ kv ∈ l, objClosed n kv.2
+
+theorem objClosed_mono {n m : Nat} (h : n ≤ m) {o : Obj} (ho : objClosed n o) : objClosed m o := by
+  cases o with
+  | atom a => trivial
+  | ref i => exact Nat.lt_of_lt_of_le ho h
+
+theorem itemsClosed_mono {n m : Nat} (h : n ≤ m) {l : List (Key × Obj)} (hl : itemsClosed n l) :
+    itemsClosed m l := fun kv hkv => objClosed_mono h (hl kv hkv)
+
+/-- every ref stored in the input heap points into the input heap -/
+def HeapWF (h : Heap) : Prop := ∀ nd ∈ h, ∀ kv ∈ nd.items, objClosed h.length kv.2
+
+/-- a visit callback only hands back the value it was given or a scalar -/
+def LocalVisit (c : HCfg) : Prop :=
+  ∀ out p k v k' v', c.vf out p k v = .repl k' v' → (∃ a, v' = .atom a) ∨ v' = v
+
+theorem dictInsert_vals {V : Type} (k : Key) (v : V) (acc : List (Key × V)) :
+    ∀ kv ∈ dictInsert k v acc, kv.2 = v ∨ kv ∈ acc := by
+  induction acc with
+  | nil => intro kv h; simp [dictInsert] at h; simp [h]
+  | cons x r ih =>
+    obtain ⟨k', v'⟩ := x
+    intro kv h
+    simp only [dictInsert] at h
+    split at h
+    · simp only [List.mem_cons] at h
+      rcases h with h | h
+      · left; simp [h]
+      · right; simp [h]
+    · simp only [List.mem_cons] at h
+      rcases h with h | h
+      · right; simp [h]
+      · rcases ih kv h with h' | h'
+        · left; exact h'
+        · right; simp [h']
+
+theorem dictUpdate_vals {V : Type} (P : V → Prop) (acc l : List (Key × V))
+    (ha : ∀ kv ∈ acc, P kv.2) (hl : ∀ kv ∈ l, P kv.2) : ∀ kv ∈ dictUpdate acc l, P kv.2 := by
+  induction l generalizing acc with
+  | nil => simpa [dictUpdate] using ha
+  | cons x r ih =>
+    obtain ⟨k, v⟩ := x
+    simp only [dictUpdate]
+    apply ih
+    · intro kv hkv
+      rcases dictInsert_vals k v acc kv hkv with h | h
+      · rw [h]; exact hl (k, v) (by simp)
+      · exact ha kv h
+    · intro kv hkv; exact hl kv (by simp [hkv])
+
+theorem renumber_vals {V : Type} (P : V → Prop) (l : List V) (i : Nat) (hl : ∀ v ∈ l, P v) :
+    ∀ kv ∈ renumber i l, P kv.2 := by
+  induction l generalizing i with
+  | nil => simp [renumber]
+  | cons x r ih =>
+    intro kv h
+    simp only [renumber, List.mem_cons] at h
+    rcases h with h | h
+    · subst h; exact hl x (by simp)
+    · exact ih (i + 1) (fun v hv => hl v (by simp [hv])) kv h
+
+theorem dedupBy_vals {V : Type} (eq : V → V → Bool) (P : V → Prop) (acc l : List V)
+    (ha : ∀ v ∈ acc, P v) (hl : ∀ v ∈ l, P v) : ∀ v ∈ dedupBy eq acc l, P v := by
+  induction l generalizing acc with
+  | nil => simpa [dedupBy] using ha
+  | cons x r ih =>
+    simp only [dedupBy]
+    split
+    · exact ih acc ha (fun v hv => hl v (by simp [hv]))
+    · apply ih
+      · intro v hv
+        simp only [List.mem_append, List.mem_singleton] at hv
+        rcases hv with hv | hv
+        · exact ha v hv
+        · subst hv; exact hl v (by simp)
+      · exact fun v hv => hl v (by simp [hv])
+
+theorem buildItems_closed (eq : Obj → Obj → Bool) (kd : Kind) (n : Nat) (items : List (Key × Obj))
+    (hi : itemsClosed n items) : itemsClosed n (buildItems eq kd items) := by
+  have hv : ∀ v ∈ items.map Prod.snd, objClosed n v := by
+    intro v hv
+    simp only [List.mem_map] at hv
+    obtain ⟨kv, hkv, rfl⟩ := hv
+    exact hi kv hkv
+  cases kd with
+  | dict => exact dictUpdate_vals (objClosed n) [] items (by simp) hi
+  | list => exact renumber_vals (objClosed n) _ 0 hv
+  | tuple => exact renumber_vals (objClosed n) _ 0 hv
+  | set => exact renumber_vals (objClosed n) _ 0 (dedupBy_vals eq (objClosed n) [] _ (by simp) hv)
+  | fset => exact renumber_vals (objClosed n) _ 0 (dedupBy_vals eq (objClosed n) [] _ (by simp) hv)
+
+structure CInv (h : Heap) (s : HSt) : Prop where
+  reg : ∀ kv ∈ s.reg, objClosed s.out.length kv.2
+  nis : ∀ pa ∈ s.nis, itemsClosed s.out.length pa.2
+  out : ∀ nd ∈ s.out, itemsClosed s.out.length nd.items
+  frames : ∀ k old new kd, HFrame.exit k old new kd ∈ s.stack → new < s.out.length
+  items : ∀ k o, HFrame.item k o ∈ s.stack → objClosed h.length o
+
+theorem lookup_mem {id : Nat} {v : Obj} {r : List (Nat × Obj)} (h : lookup id r = some v) :
+    ∃ j, (j, v) ∈ r := by
+  induction r with
+  | nil => simp [lookup] at h
+  | cons x r ih =>
+    obtain ⟨j, o⟩ := x
+    simp only [lookup] at h
+    split at h
+    · injection h with h; subst h; exact ⟨j, by simp⟩
+    · obtain ⟨j', hj⟩ := ih h; exact ⟨j', by simp [hj]⟩
+
+theorem exitNode_closed (kd : Kind) (new : Nat) (items : List (Key × Obj)) (out : Heap)
+    (ho : ∀ nd ∈ out, itemsClosed out.length nd.items) (hi : itemsClosed out.length items)
+    (hn : new < out.length) :
+    out.length ≤ (exitNode kd new items out).1.length ∧
+    (∀ nd ∈ (exitNode kd new items out).1, itemsClosed (exitNode kd new items out).1.length nd.items) ∧
+    objClosed (exitNode kd new items out).1.length (exitNode kd new items out).2 := by
+  unfold exitNode
+  split
+  · refine ⟨by simp, ?_, by simpa [objClosed] using hn⟩
+    intro nd hnd
+    simp only [List.length_set]
+    rcases List.mem_or_eq_of_mem_set hnd with h | h
+    · exact ho nd h
+    · subst h; exact buildItems_closed _ kd _ items hi
+  · refine ⟨by simp, ?_, by simp [objClosed]⟩
+    intro nd hnd
+    simp only [List.length_append, List.length_cons, List.length_nil]
+    simp only [List.mem_append, List.mem_singleton] at hnd
+    rcases hnd with h | h
+    · exact itemsClosed_mono (by omega) (ho nd h)
+    · subst h; exact itemsClosed_mono (by omega) (buildItems_closed _ kd _ items hi)
+
+theorem appendItem_CInv (h : Heap) (s : HSt) (it : Key × Obj) (hi : CInv h s)
+    (hc : objClosed s.out.length it.2) : CInv h (appendItem s it) := by
+  unfold appendItem
+  split
+  · exact ⟨hi.reg, hi.nis, hi.out, hi.frames, hi.items⟩
+  · rename_i pp acc nr hn
+    refine ⟨hi.reg, ?_, hi.out, hi.frames, hi.items⟩
+    intro pa hpa
+    simp only [List.mem_cons] at hpa
+    rcases hpa with h1 | h1
+    · subst h1
+      intro kv hkv
+      simp only [List.mem_append, List.mem_singleton] at hkv
+      rcases hkv with h2 | h2
+      · exact hi.nis (pp, acc) (by simp [hn]) kv h2
+      · subst h2; exact hc
+    · exact hi.nis pa (by simp [hn, h1])
+
+theorem finishItem_CInv (c : HCfg) (h : Heap) (s : HSt) (rest : List HFrame) (k : Key) (src val : Obj)
+    (hl : LocalVisit c) (hi : CInv h { s with stack := rest }) (hv : objClosed s.out.length val) :
+    CInv h (finishItem c s rest k src val) := by
+  have hbase : ∀ tr, CInv h { s with stack := rest, value := val, trace := tr } :=
+    fun tr => ⟨hi.reg, hi.nis, hi.out, hi.frames, hi.items⟩
+  unfold finishItem
+  split
+  · exact hbase _
+  · exact appendItem_CInv h _ _ (hbase _) hv
+  · rename_i k' v' hvf
+    apply appendItem_CInv h _ _ (hbase _)
+    rcases hl _ _ _ _ _ _ hvf with ⟨a, ha⟩ | ha
+    · subst ha; trivial
+    · subst ha; exact hv
+  · split
+    · exact ⟨hi.reg, hi.nis, hi.out, hi.frames, hi.items⟩
+    · exact appendItem_CInv h _ _ (hbase _) hv
+
+theorem enumItems_closed (kd : Kind) (n : Nat) (l : List (Key × Obj)) (i : Nat)
+    (hl : itemsClosed n l) : ∀ kv ∈ enumItems kd i l, objClosed n kv.2 := by
+  induction l generalizing i with
+  | nil => simp [enumItems]
+  | cons x r ih =>
+    obtain ⟨a, b⟩ := x
+    intro kv hkv
+    simp only [enumItems, List.mem_cons] at hkv
+    rcases hkv with h | h
+    · subst h; exact hl (a, b) (by simp)
+    · exact ih (i + 1) (fun kv' h' => hl kv' (by simp [h'])) kv h
+
+theorem CInv_step (c : HCfg) (h : Heap) (root : Obj) (s s' : HSt) (hw : HeapWF h) (hl : LocalVisit c)
+    (hi : CInv h s) (hs : hstep c h root s = some s') : CInv h s' := by
+  unfold hstep at hs
+  split at hs
+  · simp at hs
+  · split at hs
+    · simp at hs
+    · rename_i k old new kd rest hst
+      have hnew : new < s.out.length := hi.frames k old new kd (by simp [hst])
+      have hfr : ∀ k old new kd, HFrame.exit k old new kd ∈ rest → new < s.out.length :=
+        fun k old new kd hm => hi.frames k old new kd (by simp [hst, hm])
+      have hit : ∀ k o, HFrame.item k o ∈ rest → objClosed h.length o :=
+        fun k o hm => hi.items k o (by simp [hst, hm])
+      split at hs
+      · injection hs with hs; subst hs
+        exact ⟨hi.reg, hi.nis, hi.out, hfr, hit⟩
+      · rename_i p items nr hnis
+        have hitems : itemsClosed s.out.length items := hi.nis (p, items) (by simp [hnis])
+        obtain ⟨hle, hout', hval'⟩ := exitNode_closed kd new items s.out hi.out hitems hnew
+        have hreg' : ∀ kv ∈ (old, (exitNode kd new items s.out).2) :: s.reg,
+            objClosed (exitNode kd new items s.out).1.length kv.2 := by
+          intro kv hkv
+          simp only [List.mem_cons] at hkv
+          rcases hkv with h1 | h1
+          · subst h1; exact hval'
+          · exact objClosed_mono hle (hi.reg kv h1)
+        have hnis' : ∀ pa ∈ nr, itemsClosed (exitNode kd new items s.out).1.length pa.2 :=
+          fun pa hpa => itemsClosed_mono hle (hi.nis pa (by simp [hnis, hpa]))
+        have hfr' : ∀ k old new' kd', HFrame.exit k old new' kd' ∈ rest →
+            new' < (exitNode kd new items s.out).1.length :=
+          fun k old new' kd' hm => Nat.lt_of_lt_of_le (hfr k old new' kd' hm) hle
+        split at hs
+        · injection hs with hs; subst hs
+          exact ⟨hreg', by simp, hout', hfr', hit⟩
+        · injection hs with hs; subst hs
+          apply finishItem_CInv c h _ rest k _ _ hl _ hval'
+          exact ⟨hreg', hnis', hout', hfr', hit⟩
+    · rename_i k o rest hst
+      have hfr : ∀ k old new kd, HFrame.exit k old new kd ∈ rest → new < s.out.length :=
+        fun k old new kd hm => hi.frames k old new kd (by simp [hst, hm])
+      have hit : ∀ k o, HFrame.item k o ∈ rest → objClosed h.length o :=
+        fun k o hm => hi.items k o (by simp [hst, hm])
+      have ho : objClosed h.length o := hi.items k o (by simp [hst])
+      split at hs
+      · injection hs with hs; subst hs
+        exact finishItem_CInv c h _ rest k _ _ hl ⟨hi.reg, hi.nis, hi.out, hfr, hit⟩ trivial
+      · rename_i id
+        split at hs
+        · rename_i v hlk
+          injection hs with hs; subst hs
+          obtain ⟨j, hj⟩ := lookup_mem hlk
+          exact finishItem_CInv c h _ rest k _ _ hl ⟨hi.reg, hi.nis, hi.out, hfr, hit⟩ (hi.reg _ hj)
+        · split at hs
+          · rename_i hnd
+            exfalso
+            have : id < h.length := ho
+            simp at hnd
+            omega
+          · rename_i nd hnd
+            injection hs with hs; subst hs
+            have hmem : nd ∈ h := List.mem_of_getElem? hnd
+            refine ⟨?_, ?_, ?_, ?_, ?_⟩
+            · intro kv hkv
+              simp only [List.mem_cons] at hkv
+              rcases hkv with h1 | h1
+              · subst h1; simp [objClosed]
+              · exact objClosed_mono (by simp) (hi.reg kv h1)
+            · intro pa hpa
+              simp only [List.mem_cons] at hpa
+              rcases hpa with h1 | h1
+              · subst h1; intro kv hkv; simp at hkv
+              · exact itemsClosed_mono (by simp) (hi.nis pa h1)
+            · intro nd' hnd'
+              simp only [List.mem_append, List.mem_singleton] at hnd'
+              rcases hnd' with h1 | h1
+              · exact itemsClosed_mono (by simp) (hi.out nd' h1)
+              · subst h1; intro kv hkv; simp at hkv
+            · intro k' old' new' kd' hm
+              simp only [List.mem_append, List.mem_cons, itemFrames, List.mem_map] at hm
+              rcases hm with ⟨kv, _, hkv⟩ | hm | hm
+              · cases hkv
+              · injection hm with _ _ h3 _; subst h3; simp
+              · exact Nat.lt_of_lt_of_le (hfr k' old' new' kd' hm) (by simp)
+            · intro k' o' hm
+              simp only [List.mem_append, List.mem_cons, itemFrames, List.mem_map] at hm
+              rcases hm with ⟨kv, hkv1, hkv2⟩ | hm | hm
+              · injection hkv2 with h1 h2
+                subst h2
+                exact enumItems_closed nd.kind h.length nd.items 0 (hw nd hmem) kv hkv1
+              · cases hm
+              · exact hit k' o' hm
+
+theorem CInv_run (c : HCfg) (h : Heap) (root : Obj) (hw : HeapWF h) (hl : LocalVisit c) (n : Nat)
+    (s : HSt) (hi : CInv h s) : CInv h (hrun c h root n s) := by
+  induction n generalizing s with
+  | zero => exact hi
+  | succ n ih =>
+    simp only [hrun]
+    cases hs : hstep c h root s with
+    | none => exact hi
+    | some s' => exact ih s' (CInv_step c h root s s' hw hl hi hs)
+
+theorem CInv_final (c : HCfg) (h : Heap) (root : Obj) (hw : HeapWF h) (hl : LocalVisit c)
+    (hr : objClosed h.length root) : CInv h (hfinal c h root) := by
+  apply CInv_run c h root hw hl
+  refine ⟨by simp [hinit], by simp [hinit], by simp [hinit], by simp [hinit], ?_⟩
+  intro k o hm
+  simp only [hinit, List.mem_singleton] at hm
+  injection hm with _ h2; subst h2; exact hr
+
+theorem recRoot_result_registered (c : HCfg) (h : Heap) (id : Nat) (n : Nat) (st' : RSt) (v : Obj)
+    (hr : recRoot c h (.ref id) n = some (st', v)) : (id, v) ∈ st'.reg := by
+  unfold recRoot at hr
+  simp only at hr
+  split at hr
+  · simp at hr
+  · split at hr
+    · simp at hr
+    · injection hr with hr; injection hr with h1 h2; subst h1; subst h2; simp
+
+theorem hprogVisit_local (pr : Prog) (r : Bool) : LocalVisit ⟨hprogVisit pr, r⟩ := by
+  intro out p k v k' v' hv
+  simp only [hprogVisit] at hv
+  generalize evalProg pr p k (objView out v) = a at hv
+  cases a with
+  | keep => simp [VAct.toVisit] at hv
+  | drop => simp [VAct.toVisit] at hv
+  | raise => simp [VAct.toVisit] at hv
+  | repl k2 nv =>
+    cases nv with
+    | none => simp only [VAct.toVisit] at hv; injection hv with _ h2; right; exact h2.symm
+    | some a => simp only [VAct.toVisit] at hv; injection hv with _ h2; left; exact ⟨a, h2.symm⟩
+
 end C08
